@@ -89,11 +89,14 @@ def jaqal_import(
 
     module = sys.modules.get(mod_name)
 
+    # What a full reload takes out of sys.modules; put back if the import fails
+    removed = {}
+
     if module and reload_module:
         if full_reload:
-            del sys.modules[mod_name]
+            removed[mod_name] = sys.modules.pop(mod_name)
             for k in [k for k in sys.modules.keys() if k.startswith(f"{mod_name}.")]:
-                del sys.modules[k]
+                removed[k] = sys.modules.pop(k)
             module = None
         elif relative:
             module = None
@@ -101,10 +104,16 @@ def jaqal_import(
             importlib.reload(module)
 
     if module is None:
-        if relative:
-            module = _jaqal_import_module_relative(mod_name, import_path)
-        else:
-            module = importlib.import_module(mod_name)
+        try:
+            if relative:
+                module = _jaqal_import_module_relative(mod_name, import_path)
+            else:
+                module = importlib.import_module(mod_name)
+        except BaseException:
+            # A failed import leaves the modules loaded before as they were
+            for k, v in removed.items():
+                sys.modules.setdefault(k, v)
+            raise
 
     try:
         return getattr(module, obj_name)
